@@ -112,6 +112,7 @@ func vpAssert(label string, c bool) {
 func vpCheck(label string, c bool) { vpAssert(label, c) }
 
 func vpKnown(name string, c bool)        {}
+func vpKnownDeadlock(name string, c bool) {}
 func vpClearKnown()                      {}
 func vpAnd(a, b bool) bool               { return a && b }
 func vpOr(a, b bool) bool                { return a || b }
